@@ -2449,6 +2449,14 @@ def matmul(x1: Array, x2: Array) -> Array:
         raise ValueError("scalars not allowed as arguments to matmul")
 
     import pytato as pt
+    from pytato.utils import are_shape_components_equal
+
+    # The lowering below uses elementwise products and einsums, both of which
+    # broadcast unit axes: check the contracted axis as numpy does.
+    if not are_shape_components_equal(
+            x1.shape[-1], x2.shape[-2] if x2.ndim >= 2 else x2.shape[0]):
+        raise ValueError("matmul: mismatch in the contracted dimension: "
+                         f"shapes {x1.shape} and {x2.shape}")
 
     index_names = "".join([chr(i) for i in range(ord("l"), ord("z")+1)])
 
@@ -3366,6 +3374,15 @@ def dot(a: ArrayOrScalar, b: ArrayOrScalar) -> ArrayOrScalar:
 
     assert isinstance(a, Array)
     assert isinstance(b, Array)
+
+    if a.ndim > 0 and b.ndim > 0:
+        from pytato.utils import are_shape_components_equal
+
+        # (elementwise products and einsums broadcast unit axes)
+        if not are_shape_components_equal(
+                a.shape[-1], b.shape[-2] if b.ndim >= 2 else b.shape[0]):
+            raise ValueError("dot: mismatch in the contracted dimension: "
+                             f"shapes {a.shape} and {b.shape}")
 
     if a.ndim == b.ndim == 1:
         return pt.sum(a*b)
